@@ -56,11 +56,37 @@ def jobs(tier, seed):
            ('real-symmetric-3x2', dict(kind='symmetric', shape=[3, 2])),
            ('real-symmetric-3x1', dict(kind='symmetric', shape=[3, 1])),
            ('real-scalar', dict(kind='scalar', shape=[])),
+           ('integer-typed-witness', dict(kind='intwitness', shape=[])),
            ('geometric', dict(kind='geometric', shape=[1])),
            ('fp32-total', dict(kind='fp', shape=[32]))]
     if tier == 'thorough':
         out.append(('fp64-total', dict(kind='fp', shape=[64])))
     return out
+
+
+def int_witness_failures(ex):
+    """CONCRETE witness runs (not solver evidence): the symbolic runs carry no numpy dtype, so a result buffer that inherits
+    an integer dtype from the inputs is invisible to them"""
+    bad = []
+    triples = [(0, 3, 4), (0, 2, 7), (1, 3, 4), (8, 4, 2), (-5, 1, 4), (10, 4, 1)]
+    for t in triples:
+        variants = [('int', t), ('mixed', (float(t[0]), float(t[1]), t[2])), ('mixed2', (t[0], float(t[1]), float(t[2]))),
+                    ('int-array', tuple(np.array([v, v + 1]) for v in t)), ('int64-0d', tuple(np.int64(v) for v in t))]
+        for label, args in variants:
+            fl = tuple(np.asarray(a, dtype=float) for a in args)
+            keep = [np.array(a, copy=True) for a in args]
+            try:
+                with cm.quiet():
+                    r, e = ex.dea3(*args)
+                    rf, ef = ex.dea3(*fl)
+            except Exception as exc:  # noqa
+                bad.append('dea3%r raises %s: %s' % (args, type(exc).__name__, exc))
+                continue
+            if not (np.array_equal(np.asarray(r, dtype=float), rf) and np.array_equal(np.asarray(e, dtype=float), ef)):
+                bad.append('dea3 with %s terms %r returns (%r, %r); with the same values as floats (%r, %r)' % (label, args, r, e, rf, ef))
+            if any(not np.array_equal(np.asarray(a), k) for a, k in zip(args, keep)):
+                bad.append('dea3 modified its %s inputs %r' % (label, args))
+    return bad
 
 
 def _vars(prefix, shape):
@@ -139,6 +165,11 @@ def run_job(job, kind, shape):
                 return ex.dea3(*one, symmetric=True)
         r1, e1 = sn.run_single(h2).result
         job.confirm('symmetric-len1', np.shape(r1) == (1,) and np.shape(e1) == (1,))
+        return
+    if kind == 'intwitness':
+        bad = int_witness_failures(ex)
+        if not job.confirm('integer-typed and mixed-type terms give the same results as the same values as floats (concrete runs)', not bad):
+            job.violation('int', dict(key='C13:integer-typed-inputs', kind='intwitness', detail=bad[0]))
         return
     if kind == 'geometric':
         return geometric(job, ex)
@@ -293,6 +324,9 @@ def replay(cex):
                 return True, ('dea3(%r, %r, %r) = %r with abserr %r; the terms are L + a q^k with L = %r (a=%r, q=%r)'
                               % (t0, t1, t2, r[0], e[0], Lx, av, qv))
         return False, 'dea3 recovers the limit on the model point and a 30-decade sweep'
+    if kind == 'intwitness':
+        bad = int_witness_failures(ex)
+        return (True, bad[0]) if bad else (False, 'integer-typed inputs behave like floats')
     if kind in ('real', 'elementwise', 'inputs', 'sym'):
         cfg = cex['config']
         shape = tuple(cfg['shape']) or (1,)
